@@ -126,7 +126,7 @@ theorem rpcReplTcp_eq (ovf : Bool) (s : RpcSt) (ci : ClientInfo) (d : Bytes) :
         if s'.state = .done then
           match rpcBuild s' ci with
           | .error e => .error e
-          | .ok resp => .ok (s', some (rpcMark resp.length ++ resp))
+          | .ok resp => .ok ({}, some (rpcMark resp.length ++ resp))
         else .ok (s', none) := rfl
 
 /-- `repl_udp` for two client infos -/
